@@ -89,11 +89,16 @@ func (in *injector) before(key, op string, offset int) {
 
 type hookFactory struct {
 	page.Factory
-	key string
+	key      string
+	path     string
+	pageSize int
 }
 
 func (f *hookFactory) AcquirePage(index int64) (page.MappedPage, error) {
 	cinj.hit(f.key, "acquire")
+	if err := pfault.acquire(f.Factory, f.key, f.path, f.pageSize, index); err != nil {
+		return nil, err
+	}
 	p, err := f.Factory.AcquirePage(index)
 	if err != nil {
 		return nil, err
@@ -139,20 +144,25 @@ func installPages() {
 		if key != "data" && key != "index" {
 			cinj.hit(key, "factory") // create_pair_test.go: the page factory of a consumer group is about to be built
 		}
+		if err := pfault.construct(key, path); err != nil {
+			return nil, err
+		}
 		f, err := page.NewFactory(path, pageSize)
 		if err != nil {
 			return nil, err
 		}
 		if key == "data" || key == "index" {
-			return f, nil
+			// pages of the big files stay unwrapped; only the creation of a page file can be made to fail
+			return &faultFactory{Factory: f, key: key, path: path, pageSize: pageSize}, nil
 		}
-		return &hookFactory{Factory: f, key: key}, nil
+		return &hookFactory{Factory: f, key: key, path: path, pageSize: pageSize}, nil
 	})
 }
 
 func uninstallPages() {
 	inj.disarm()
 	cinj.disarm()
+	pfault.disarm()
 	queue.VerifSetPageFactory(nil)
 }
 
